@@ -14,7 +14,7 @@ from streamflow.deployment.connector.base import extract_tar_stream
 from streamflow.deployment.stream import BaseStreamWrapper
 
 from sfv.framework import Ctx, Property
-from sfv.rt.shfake import Hang, run_alarm as run_forked
+from sfv.rt.shfake import in_scratch_cwd, Hang, run_alarm as run_forked
 from sfv.rt.trees import diff, diff_items, make_tree, snapshot
 
 
@@ -166,6 +166,22 @@ def py_tar(parent: str, base: str, fmt) -> bytes:
     return buf.getvalue()
 
 
+def gnu_tar_members(parent: str, members: list[str], fmt: str) -> bytes:
+    """GNU tar with an explicit member order (no recursion)"""
+    p = subprocess.run(["tar", f"--format={fmt}", "--no-recursion", "-cf", "-", "-C", parent, "--", *members], capture_output=True, timeout=60)
+    if p.returncode != 0:
+        raise RuntimeError(f"tar failed: {p.stderr[:200]!r}")
+    return p.stdout
+
+
+def py_tar_members(parent: str, members: list[str], fmt) -> bytes:
+    buf = io.BytesIO()
+    with tarfile.open(fileobj=buf, mode="w", format=fmt) as t:
+        for m in members:
+            t.add(os.path.join(parent, m), arcname=m, recursive=False)
+    return buf.getvalue()
+
+
 def boundaries(data: bytes) -> list[tuple[str, int]]:
     """cut points by class, found with CPython's tarfile on the complete archive"""
     cuts = []
@@ -196,7 +212,7 @@ class C23(Property):
     props_files = ["SFV/Props/C23.lean"]
     drivers = ["Drivers/C23.lean"]
     translators = []
-    quick_budget_s = 480
+    quick_budget_s = 900
     rule = ("(1) stream ops: random read/seek sequences on the real SeekableStreamReaderWrapper over a chunking fake stream (policies: at most "
             "k bytes per raw read, k in 1..65536; pseudo-random sizes depending on request and remaining) vs the Lean reader; (2) archives of "
             "random trees written by GNU tar (gnu/ustar/posix), Python tarfile (GNU/USTAR/PAX) and the async writer, read by the real "
@@ -402,6 +418,33 @@ class C23(Property):
                 self.extract_and_compare(ctx, data[:cut[1]], spec, f, os.path.basename(f), "single file into directory, truncated", cut, {**rp, "cut": list(cut)})
         return lines, expect, meta
 
+    # ---- extension records must not leak into later members ---------------------------------------------------------
+    def sticky_header_cases(ctx_self, ctx: Ctx):
+        """corpus: a member whose name needs an extension record (pax extended header / GNU long name), FOLLOWED by further short-named
+        members, in that archive order; every format; read by the async reader and compared with the source tree"""
+        self = ctx_self
+        rng = ctx.rng
+        parent = os.path.join(ctx.scratch, f"p{self.gen}")
+        src = os.path.join(parent, "src")
+        os.makedirs(os.path.join(src, "d"))
+        longname = "L" + "x" * 60 + "-" + "y" * 70
+        for name, content in ((longname, b"long-named\n" * 50), ("s1", b"one"), ("s2", b"two" * 300), ("d/inner", b"in"), ("é " + "z" * 110, b"second long")):
+            with open(os.path.join(src, name), "wb") as f:
+                f.write(content)
+        orders = [["src", "src/" + longname, "src/s1", "src/s2", "src/d", "src/d/inner", "src/é " + "z" * 110],
+                  ["src", "src/s1", "src/" + longname, "src/d", "src/d/inner", "src/é " + "z" * 110, "src/s2"]]
+        want = snapshot(src)
+        for oi, members in enumerate(orders):
+            arch = {"tarfile-pax": py_tar_members(parent, members, tarfile.PAX_FORMAT), "gnutar-posix": gnu_tar_members(parent, members, "posix"),
+                    "tarfile-gnu": py_tar_members(parent, members, tarfile.GNU_FORMAT), "gnutar-gnu": gnu_tar_members(parent, members, "gnu")}
+            for writer, data in arch.items():
+                spec = rand_policy(rng)
+                ctx.case({"op": "archive", "writer": writer + " long name then short names", "order": oi, "policy": spec, "bytes": len(data)},
+                         ("sticky", writer, oi, spec), f"archive:{writer}:long-then-short")
+                replay = {"op": "archive", "writer": writer, "policy": spec, "archive_hex": data.hex() if len(data) <= 40960 else None, "base": "src",
+                          "tree": {k: list(v) for k, v in want.items()}}
+                self.extract_and_compare(ctx, data, spec, src, "src", f"{writer} (long-named member followed by short-named ones)", None, replay)
+
     # ---- (4) the async writer read back by the standard tools ------------------------------------------------------------
     def writer_cases(self, ctx: Ctx, n: int):
         rng = ctx.rng
@@ -443,6 +486,7 @@ class C23(Property):
                 if d:
                     ctx.fail(f"writer:{reader}-extracts-different-tree", f"format {fmt}: {d[:3]}", replay)
 
+    @in_scratch_cwd
     def explore(self, ctx: Ctx) -> None:
         from sfv.rt.shfake import limit_failures
         limit_failures(ctx)
@@ -450,6 +494,7 @@ class C23(Property):
         self.nx = 0
         big = ctx.tier == "thorough" or ctx.mode == "search"
         lines, expect, meta = self.stream_cases(ctx, 1500 if big else 300)
+        self.sticky_header_cases(ctx)
         l2, e2, m2 = self.archive_cases(ctx, 12 if big else 2, 25 if big else 3, 10 if big else 3, 8 if big else 2)
         self.writer_cases(ctx, 25 if big else 4)
         lines, expect, meta = lines + l2, expect + e2, meta + m2
@@ -458,6 +503,7 @@ class C23(Property):
             if g != e:
                 ctx.disagree(f"model vs {m[0]}", f"{m[0]}: code {e[:300]!r}, Lean model {g[:300]!r}", m[1])
 
+    @in_scratch_cwd
     def replay(self, ctx: Ctx, data) -> None:
         r = data.get("replay") or {}
         self.gen, self.nx = 1, 0
